@@ -131,5 +131,19 @@ PROPS["C01"] = dict(
                  "references are acyclic by construction (known finding F3)"],
 )
 
+PROPS["C07"] = dict(
+    pkg="c07",
+    subs=[
+        dict(name="roundtrip", test="TestRoundTrip", quick=6000, thorough=200000, shards=16),
+        dict(name="corpus", test="TestCorpus", quick=1, thorough=1, shards=8),
+    ],
+    technique="rapid witness-first typed program generator; round trip Value.Syntax(profile) -> format.Node -> compile in a fresh context, compared on an order-insensitive canonical form (or JSON for data profiles)",
+    level_text="exploration: generated programs (tier T1) printed under 6 option profiles (default, All, Final, Concrete, Docs+Attributes, Definitions+Hidden+Optional), at the root and at a random struct-valued sub-path; the printed text must compile on its own and evaluate to an equivalent value. Corpus files are run as additional inputs and their failures are listed, not gated.",
+    level_note="trusted: canon (see C01), format.Node (checked by C08), MarshalJSON (C10). Only programs whose evaluation has no fatal error are in the domain.",
+    rule="program = witness-first typed program (tier T1), profile and optional sub-path drawn at random; non-trivial = value not concrete, or program has a disjunction, close(), pattern, interpolation or arithmetic; distinct = (program text, profile, path).",
+    assumptions=["known finding F32 (let hoisted to the wrong scope when a field is nested inside a field of the same label) is excluded by construction",
+                 "Final/Concrete profiles are only applied to concrete values"],
+)
+
 NOT_APPLICABLE = {}
 HOOK_COMMITS = []
